@@ -114,6 +114,24 @@ def texts_for(ctx):
     return streams
 
 
+def private_driver(ctx):
+    """A private copy of the model driver: other checks relink the shared gvdriver concurrently
+    (lake replaces the file), which would look like the model dying."""
+    import shutil
+    import time
+    dst = os.path.join(ctx.scratch("drv"), "gvdriver")
+    for _ in range(120):
+        try:
+            shutil.copy2(common.DRIVER, dst)
+            rc, so, _ = common.run_cmd([dst], input="ping\n", timeout=20)
+            if so.strip() == "OK pong":
+                return dst
+        except OSError:
+            pass
+        time.sleep(1)
+    return common.DRIVER
+
+
 def run(ctx):
     streams = texts_for(ctx)
     ctx.rule = ("texts from 4 generated streams (weighted raw alphabet incl. 2/3/4-byte chars and non-ASCII "
@@ -133,7 +151,7 @@ def run(ctx):
             origin.append(name)
     lines = ["lex " + common.hexs(t) for t in all_texts]
     impl = ctx.garden_batch(lines)
-    model = ctx.model_batch(lines)
+    model = common.batch([private_driver(ctx)], lines)
     stats = {}
     per_stream = {}
     feats = {}
